@@ -30,9 +30,11 @@
  * Constants
  */
 
-/* Extend record types with the following special values. */
+/* Extend record types with the following special values. They lie
+   outside the range of the one-byte type field, so that no type read
+   from a file can be mistaken for them. */
 enum {
-  LDB_EOF = LDB_MAX_RECTYPE + 1,
+  LDB_EOF = 256,
 
   /* Returned whenever we find an invalid physical record.
    *
@@ -42,7 +44,7 @@ enum {
    * - The record is a 0-length record (No drop is reported)
    * - The record is below constructor's initial_offset (No drop is reported)
    */
-  LDB_BAD_RECORD = LDB_MAX_RECTYPE + 2
+  LDB_BAD_RECORD = 257
 };
 
 /*
